@@ -38,8 +38,8 @@ REQUIRED = {"fold:direct_calls": 2000, "fold:multi_wrap": 500, "fold:from_sample
 
 def jobs(tier, seed):
     n_jobs = 16 if tier == "quick" else 32
-    return [{"name": f"lim-{j}", "seed": seed, "j": j, "n_direct": 60 if tier == "quick" else 500,
-             "n_gibbs": 4 if tier == "quick" else 30, "n_box": 4 if tier == "quick" else 30} for j in range(n_jobs)]
+    return [{"name": f"lim-{j}", "seed": seed, "j": j, "n_direct": 200 if tier == "quick" else 800,
+             "n_gibbs": 10 if tier == "quick" else 45, "n_box": 10 if tier == "quick" else 45} for j in range(n_jobs)]
 
 
 # ------------------------------------------------------------------ exact reference fold
